@@ -33,14 +33,14 @@ func init() {
 		ID:        "C08",
 		Level:     "model_checking",
 		Technique: "stateless model checking of the real jrpc2.Client caches (controlled scheduler over instrumented code, simulated node): all interleavings of 2-3 caller threads and the head poller up to a preemption bound, every single injected RPC failure at every exchange; oracle = uncached reference computed from the chain model + counting of reads served without asking the node from the call log and the node's exchange log",
-		Rule: "jobs = max-reads m in {1,2,3} x one program of 1-2 calls per thread (2 threads; 3 threads with 1 call, thorough also 3 threads with 1-2 calls) over {Get(filter A), Get(filter B), Get(no logs), Get(receipts)} on colliding ranges (1,2),(1,2),(2,2),(3,1) of a static 6-block chain (2 txs x 2 logs per block, two addresses x two event signatures; filter A = address X, filter B = topic0 S1, sharing one log and each selecting one the other does not), separately for the header-segment cache and the block-segment cache and once across both; head jobs = programs over {Latest(floor 0|3|4|5), announce(head n)+poller tick} where announcements move the node among prefixes of the same chain with repeats (4 while 4, 5 twice) and regressions (3 after 4/5); mixed Get+Latest jobs; the sequences of the repository's own sequential cache tests. " +
+		Rule: "jobs = max-reads m in {1,2,3} x one program of 1-2 calls per thread (2 threads; 3 threads with 1 call, thorough also 3 threads with 1-2 calls) over {Get(filter A), Get(filter B), Get(no logs), Get(receipts)} on colliding ranges (1,2),(1,2),(2,2),(3,1) of a static 6-block chain (2 txs x 2 logs per block, two addresses x two event signatures; filter A = address X, filter B = topic0 S1, sharing one log and each selecting one the other does not), separately for the header-segment cache and the block-segment cache and once across both; head jobs = programs over {Latest(floor 0|3|4|5|6), announce(head n)+poller tick, announce(head n of a sibling branch forking above block 3: same height, other hash)+tick}, the announcements always polled by the REAL head poller (its reused decode buffer included): one announcement between reads; every ordered pair (quick: over {3,5,6,4',5'}, thorough: {3,4,5,6,4',5',6'}) and some triples of announcements followed by reads, i.e. accepted heads followed by repeats, regressions and same-height replacements the cache must reject; waiter jobs = 3 threads on one segment, one with 2-3 follow-up reads, every single failure at every exchange (a download fails while callers wait on it, then the key is read again); mixed Get+Latest jobs; the sequences of the repository's own sequential cache tests. " +
 			"Per job every schedule with <= 2 preemptions and <= 2 deviations in total (head jobs with announcements: 1; thorough: core jobs 3, the rest 2), all free choices (who runs at call boundaries and when a thread blocks or ends) exhaustively, and on fault jobs additionally every single rpc-error-object / transport-error at every exchange (Get's fetch, logs and receipts exchanges, Latest's own fetch, the poller's poll). An execution is non-trivial when at least one read was served from cache or a fault was injected; distinct = distinct (job, choice sequence).",
 		Assumptions: []string{
 			"simulated node (h/simeth) answers like a well-behaved geth; see DESIGN.md §7",
 			"interleavings are at synchronisation-point granularity (mutex, once, channel, spawn, RPC exchange); unsynchronised memory accesses are C18's subject",
 			"extra correct logs/txs on a returned block beyond the caller's filter are not judged (row-level isolation is C04); a matching log missing, a wrong log, or a log index twice within a tx is",
 			"bounded reuse counts reads served without asking the node between two consecutive successful node fetches of the same segment key (head: per announced pair); the read that performs the fetch is not counted (the reading under which the repo's TestCache_MaxReads and TestLatest_Cached hold); a concurrent cached read is charged to the most favourable window its call interval touches",
-			"the head part changes only the head (prefixes of one fixed chain); block contents of a number never change",
+			"the head part changes only the head (prefixes of one fixed chain, or of a sibling branch that differs only above block 3); the contents of the blocks Get requests (1..3) never change",
 		},
 		Budget:        map[string]time.Duration{"quick": 140 * time.Second, "thorough": 1100 * time.Second},
 		MinNontrivial: 1000,
@@ -157,6 +157,66 @@ func segJobs(fam string, spec string, faults bool, pre int, ms ...int) []job {
 	return out
 }
 
+// announcementJobs: the poller is fed SEQUENCES of announcements — growth, repeats, regressions and
+// the sibling branch (same height, other hash) — so that announcements the cache must reject follow
+// one it accepted; reads come before, between (second thread) and after them.
+// One thread: every ordered pair of announcements (plus a few triples), all poller interleavings
+// with <= 2 preemptions; two threads: 1 preemption.
+func announcementJobs(thorough bool) []job {
+	var out []job
+	sigma := []string{"H:3", "H:5", "H:6", "R:4", "R:5"}
+	if thorough {
+		sigma = []string{"H:3", "H:4", "H:5", "H:6", "R:4", "R:5", "R:6"}
+	}
+	ms := []int{1, 2}
+	if thorough {
+		ms = []int{1, 2, 3}
+	}
+	for _, x := range sigma {
+		for _, y := range sigma {
+			for _, m := range ms {
+				out = append(out, headJob(m, 2, false, "L:0 "+x+" "+y+" L:3 L:3"))
+			}
+		}
+	}
+	for i, p := range []string{"L:0 H:5 H:3 R:5 L:3 L:4", "L:0 H:5 R:5 H:5 L:3 L:5", "L:0 R:5 H:5 H:6 L:5 L:3", "L:3 H:6 R:6 H:3 L:3 L:6"} {
+		for _, m := range ms {
+			if thorough || m == 1+i%2 {
+				out = append(out, headJob(m, 2, false, p))
+			}
+		}
+	}
+	out = append(out, headJob(1, 1, false, "L:0 H:5 H:3 L:3", "L:3"))
+	out = append(out, headJob(2, 1, false, "L:0 H:5 R:5 L:3", "L:3"))
+	if thorough {
+		out = append(out, headJob(2, 1, false, "L:0 H:5 H:3 L:3", "L:3"), headJob(1, 1, false, "L:0 H:5 R:5 L:3", "L:3"))
+		for _, p := range []string{"L:0 H:6 R:4 L:3", "L:0 R:5 H:5 L:3", "L:0 H:5 H:5 L:3", "L:3 H:6 H:3 L:3"} {
+			for _, m := range ms {
+				out = append(out, headJob(m, 1, false, p, "L:3"))
+				out = append(out, headJob(m, 1, false, p, "L:3 L:3"))
+			}
+		}
+		out = append(out, headJob(1, 1, true, "L:0 H:5 H:3 L:3", "L:3"), headJob(2, 1, true, "L:0 H:5 R:5 L:3", "L:3"))
+	}
+	return out
+}
+
+// waiterJobs: a download with callers WAITING on it fails (or not), and the key is read again
+// afterwards: 3 threads on one segment, one of them with follow-up reads, every single rpc error
+// at every exchange, 1 preemption (to let the waiters queue up behind the in-flight download).
+func waiterJobs(thorough bool) []job {
+	mk := func(fam, spec string, m, fk int) job {
+		j := segJob(fam, m, strings.Split(spec, "|"), true)
+		j.Pre, j.FK = 1, fk
+		return j
+	}
+	out := []job{mk("h", "pppp|p|p", 3, 1)}
+	if thorough {
+		out = append(out, mk("h", "ppp|p|p", 2, 1), mk("h", "pppp|p|p", 3, 2), mk("b", "pppp|p|p", 3, 1), mk("h", "ppp|pp|p", 3, 1), mk("h", "ppp|p|p", 1, 1), mk("b", "ppp|p|p", 2, 1))
+	}
+	return out
+}
+
 func c08Jobs(thorough bool) []job {
 	var jobs []job
 	add := func(js ...job) { jobs = append(jobs, js...) }
@@ -176,6 +236,7 @@ func c08Jobs(thorough bool) []job {
 			add(segJobs(fam, "ab|ba", true, 0, 2)...)
 			add(segJobs(fam, "ap|pa", true, 0, 1)...)
 		}
+		add(waiterJobs(false)...)
 		add(segJobs("h", "ab|ba", false, 0, 3)...)
 		add(segJobs("h", "ab|ab", false, 0, 1)...)
 		add(segJobs("b", "pa|bp", false, 0, 3)...)
@@ -200,6 +261,7 @@ func c08Jobs(thorough bool) []job {
 		add(headJob(2, 1, false, "L:3 H:3 L:3", "L:0 L:3"))
 		add(headJob(1, 2, false, "L:0 H:3 L:3", "L:3"))
 		add(headJob(1, 2, false, "L:3 L:3", "L:3 L:3"))
+		add(announcementJobs(false)...)
 		// failures of Latest's own fetch and of the poller's
 		add(headJob(1, 1, true, "L:0 H:5 L:3", "L:3"))
 		add(headJob(2, 1, true, "L:3 H:3 L:3", "L:3"))
@@ -262,6 +324,8 @@ func c08Jobs(thorough bool) []job {
 		add(job{M: m, Init: 4, Pre: 2, Threads: [][]string{{"L:0", "G:blA:1:2"}, {"G:blB:1:2", "L:3"}}})
 	}
 	add(headJob(3, 1, false, "L:0 H:5 L:3", "L:3 L:3"))
+	add(announcementJobs(true)...)
+	add(waiterJobs(true)...)
 	for _, m := range []int{2, 3} {
 		add(job{M: m, Pre: 2, Threads: [][]string{{"G:b:1:2", "G:hlA:1:2"}, {"G:hlB:1:2", "G:blB:1:2"}}})
 	}
